@@ -34,7 +34,7 @@ m = {
                  'kind_free_text': 'Hypothesis-driven generated search + exhaustive small-scope enumeration against an independent reference model (refbufr), sharded over processes; own time-boxed choice-sequence shrinker; atheris for the two character state machines (thorough)'}],
     'checks': checks,
     'not_applicable': na,
-    'notes': 'See DESIGN.md. Known findings: /verif/known_findings.txt.',
+    'notes': 'See DESIGN.md (sections 13-15: as built, defects and findings, sensitivity). Open known findings and the repaired defects (19 fix: commits in /repo) are listed in /verif/known_findings.txt; probes and regression inputs in /verif/corpus/; independently written breaking changes in /verif/seeded/; planted mutants and the reverts of every repair in /verif/mutants/ (results in RESULTS.json). No source hooks are needed: every observation point is public API.',
 }
 json.dump(m, open(os.path.join(HERE, 'MANIFEST.json'), 'w'), indent=1)
 try:
